@@ -28,6 +28,9 @@ type Net struct {
 	DropP, RespDropP, DelayP, DupP float64
 	MaxDelay                       time.Duration
 
+	// kindDup: every request of this kind is delivered a second time, this much later
+	kindDup map[string]time.Duration
+
 	// zero-time step budget (see DESIGN 2.3)
 	link map[[2]string]*linkStat
 	Spin int
@@ -138,7 +141,24 @@ func (n *Net) SetReqCut(from, to string, v bool) {
 	n.w.Log(Ev{K: "x.cut", S: from, X: to, A: b2u(v), Y: "requests-only"})
 }
 
+// SetKindDup makes the network deliver every request of one kind ("tn", "rv", ...) twice, the
+// copy d later (0 removes the rule). Heal leaves it alone.
+func (n *Net) SetKindDup(kind string, d time.Duration) {
+	n.mu.Lock()
+	if n.kindDup == nil {
+		n.kindDup = map[string]time.Duration{}
+	}
+	if d == 0 {
+		delete(n.kindDup, kind)
+	} else {
+		n.kindDup[kind] = d
+	}
+	n.mu.Unlock()
+	n.w.Log(Ev{K: "x.kinddup", X: kind, A: uint64(d / time.Millisecond)})
+}
+
 type fate struct {
+	dupAfter                            time.Duration
 	dropReq, dropResp, dup, quarantined bool
 	cutBody                             bool
 	delayReq, delayResp                 time.Duration
@@ -203,6 +223,9 @@ func (n *Net) fate(from, to, kind string, pos uint64) fate {
 		f.cutBody = true // lossy network: a snapshot stream may end early
 	}
 	f.delayReq += n.slow[k]
+	if d := n.kindDup[kind]; d > 0 {
+		f.dup, f.dupAfter = true, d
+	}
 	return f
 }
 
@@ -474,7 +497,7 @@ func (t *Trans) call(target raft.ServerAddress, kind string, req interface{}, rd
 		// The copy is taken now: raft reuses the request struct for its next request.
 		req := copyReq(req)
 		go func() {
-			time.Sleep(f.delayResp + time.Millisecond)
+			time.Sleep(f.delayResp + time.Millisecond + f.dupAfter)
 			t.net.mu.Lock()
 			t.net.ids++
 			id2 := t.net.ids
